@@ -955,6 +955,8 @@ func (a area) Run(c *core.Ctx) error {
 				r.stressCase(rng, 8, 1500)
 			case i == 14:
 				r.mwWitnessCase(rng)
+			case i == 15:
+				r.posCase(rng, true) // index page position: the witness family of index_switch_exact
 			case c.Tier == "thorough" && i >= 8 && i <= 12:
 				// one below / one above the index page boundary, the second boundary, GC overlap with pending messages
 				switch i {
@@ -984,6 +986,8 @@ func (a area) Run(c *core.Ctx) error {
 					r.partCase(rng) // replica/partition.go glue over a real FanOutQueue (partition.go)
 				case i%10 == 4:
 					r.mwCase(rng) // the writers of the meta page as scheduled goroutines (metawriters.go)
+				case i%20 == 3:
+					r.posCase(rng, false) // index page position under resets across index pages (indexpos.go)
 				case k < 48:
 					r.seqCase(rng)
 				case k < 60:
